@@ -1,0 +1,61 @@
+//! Verification hooks (only compiled with `--cfg jubako_verif`).
+//!
+//! Constructors giving external harnesses a `ByteRegion` over each kind of `Source`,
+//! at a chosen (non zero) offset. Nothing here is used by the library itself.
+
+use crate::bases::*;
+use crate::reader::ByteRegion;
+use std::io::Read;
+use std::path::Path;
+use std::sync::Arc;
+
+fn region(source: Arc<dyn Source>, base: Region, begin: u64, size: u64) -> ByteRegion {
+    ByteRegion {
+        source,
+        region: base.cut_rel(Offset::new(begin), Size::new(size)),
+    }
+}
+
+/// A region `[begin, begin+size)` of a in-memory source.
+pub fn region_in_vec(data: Vec<u8>, begin: u64, size: u64) -> ByteRegion {
+    let base = Region::new_from_size(Offset::zero(), Size::new(data.len() as u64));
+    region(Arc::new(data), base, begin, size)
+}
+
+/// A region `[begin, begin+size)` of a file source (not cut, read through the BufReader).
+pub fn region_in_file(path: &Path, begin: u64, size: u64) -> Result<ByteRegion> {
+    let source = FileSource::open(path)?;
+    let base = Region::new_from_size(Offset::zero(), source.size());
+    Ok(region(Arc::new(source), base, begin, size))
+}
+
+/// A region `[begin, begin+size)` relative to the part `[cut_begin, cut_begin+cut_size)` of a
+/// file, this part being cut "in memory" (copied in a Vec under 4KiB, mmapped otherwise).
+pub fn region_in_file_cut(
+    path: &Path,
+    cut_begin: u64,
+    cut_size: u64,
+    begin: u64,
+    size: u64,
+) -> Result<ByteRegion> {
+    let source: Arc<dyn Source> = Arc::new(FileSource::open(path)?);
+    let (source, base) = source.cut(
+        Region::new_from_size(Offset::new(cut_begin), Size::new(cut_size)),
+        BlockCheck::None,
+        true,
+    )?;
+    Ok(region(source, base, begin, size))
+}
+
+/// A region `[begin, begin+size)` of the `total_size` bytes produced by `decoder`,
+/// decoded in background by a `SeekableDecoder`.
+pub fn region_in_decoder<R: Read + Send + 'static>(
+    decoder: R,
+    total_size: usize,
+    begin: u64,
+    size: u64,
+) -> ByteRegion {
+    let source = SeekableDecoder::new(decoder, ASize::new(total_size));
+    let base = Region::new_from_size(Offset::zero(), Size::new(total_size as u64));
+    region(Arc::new(source), base, begin, size)
+}
